@@ -129,26 +129,31 @@ def GROUP(target, spec, scope):
         acc = tree[_spec_id] = _spec_type()
     if _spec_type is dict:
         done = True
-        for keyspec, valspec in spec.items():
-            if tree.get(keyspec, None) is STOP:
-                continue
-            key = recurse(keyspec)
-            if key is SKIP:
-                done = False  # SKIP means we still want more vals
-                continue
-            if key is STOP:
-                tree[keyspec] = STOP
-                continue
-            if key not in acc:
-                tree[key] = {}
-            scope[ACC_TREE] = tree[key]
-            result = recurse(valspec)
-            if result is STOP:
-                tree[keyspec] = STOP
-                continue
-            done = False  # SKIP or returning a value means we still want more vals
-            if result is not SKIP:
-                acc[key] = result
+        try:
+            for keyspec, valspec in spec.items():
+                if tree.get(keyspec, None) is STOP:
+                    continue
+                key = recurse(keyspec)
+                if key is SKIP:
+                    done = False  # SKIP means we still want more vals
+                    continue
+                if key is STOP:
+                    tree[keyspec] = STOP
+                    continue
+                if key not in acc:
+                    tree[key] = {}
+                scope[ACC_TREE] = tree[key]
+                result = recurse(valspec)
+                if result is STOP:
+                    tree[keyspec] = STOP
+                    continue
+                done = False  # SKIP or returning a value means we still want more vals
+                if result is not SKIP:
+                    acc[key] = result
+        finally:
+            # (the bucket's sub-tree is for the value spec only: a later step of
+            # an enclosing Pipe chains onto this scope and accumulates per level)
+            scope[ACC_TREE] = tree
         if done:
             return STOP
         return acc
